@@ -11,8 +11,6 @@ import (
 	"go/ast"
 	"go/printer"
 	"go/token"
-	"os"
-	"path/filepath"
 	"sort"
 	"strings"
 )
@@ -35,44 +33,207 @@ func exprText(fset *token.FileSet, e ast.Node) string {
 	return strings.Join(strings.Fields(b.String()), " ")
 }
 
+// a site found in one function: what it is, and the conditions around it inside that function
+type rnSite struct {
+	fd    *ast.FuncDecl
+	cb    string // FSM callback (key of the function literal in the callbacks table), if any
+	kind  string // zero | value | address | draw
+	conds []string
+}
+
+type rnCallSite struct {
+	caller *ast.FuncDecl
+	cb     string
+	conds  []string
+}
+
 func runNumberSites() string {
-	dir := repo + "/core/environment"
-	ents, err := os.ReadDir(dir)
-	if err != nil {
-		die("runnumbersites: %v", err)
-	}
-	var files []string
-	for _, e := range ents {
-		n := e.Name()
-		if !strings.HasSuffix(n, ".go") || strings.HasSuffix(n, "_test.go") || strings.HasPrefix(n, "zz_verif_") {
-			continue
+	pkg := loadSymPkg("core/environment")
+	// named string constants are written out in the conditions
+	constText := map[string]string{}
+	for n, e := range pkg.consts {
+		if lit, ok := e.(*ast.BasicLit); ok {
+			constText[n] = lit.Value
 		}
-		files = append(files, n)
 	}
-	sort.Strings(files)
-	var writes, draws []string
-	for _, n := range files {
-		fset, f := parseFile(filepath.Join("core/environment", n))
+	// per function: what a local name stands for - a parameter or receiver is written as its type,
+	// a local that is assigned exactly once as the expression it was assigned (three levels)
+	var subst map[string]ast.Node
+	var substResult map[string]int
+	var substType map[string]string
+	var text func(e ast.Node) string
+	var negText func(c ast.Expr) string
+	var textDepth int
+	text = func(e ast.Node) string {
+		t := exprText(pkg.fset, e)
+		seen := map[string]bool{}
+		ast.Inspect(e, func(x ast.Node) bool {
+			if se, ok := x.(*ast.SelectorExpr); ok {
+				// only the operand of a selector can be a local name
+				ast.Inspect(se.X, func(y ast.Node) bool { return true })
+			}
+			id, ok := x.(*ast.Ident)
+			if !ok || seen[id.Name] {
+				return true
+			}
+			seen[id.Name] = true
+			if v, ok := constText[id.Name]; ok {
+				t = replaceWord(t, id.Name, v)
+			} else if ty, ok := substType[id.Name]; ok {
+				t = replaceWord(t, id.Name, ty)
+			} else if rhs, ok := subst[id.Name]; ok && textDepth < 3 && len(exprText(pkg.fset, rhs)) <= 80 {
+				textDepth++
+				r := "(" + text(rhs) + ")"
+				if k, ok := substResult[id.Name]; ok {
+					r = fmt.Sprintf("(%s#%d)", text(rhs), k)
+				}
+				t = replaceWord(t, id.Name, r)
+				textDepth--
+			}
+			return true
+		})
+		return t
+	}
+	negText = func(c ast.Expr) string {
+		c = unparen(c)
+		if b, ok := c.(*ast.BinaryExpr); ok {
+			switch b.Op {
+			case token.NEQ:
+				return text(b.X) + " == " + text(b.Y)
+			case token.EQL:
+				return text(b.X) + " != " + text(b.Y)
+			}
+		}
+		if u, ok := c.(*ast.UnaryExpr); ok && u.Op == token.NOT {
+			return text(u.X)
+		}
+		return "!(" + text(c) + ")"
+	}
+	prepare := func(fd *ast.FuncDecl) {
+		subst, substType, substResult = map[string]ast.Node{}, map[string]string{}, map[string]int{}
+		count := map[string]int{}
+		fields := func(fl *ast.FieldList) {
+			if fl == nil {
+				return
+			}
+			for _, f := range fl.List {
+				ty := exprText(pkg.fset, f.Type)
+				ty = strings.TrimPrefix(ty, "*")
+				for _, n := range f.Names {
+					substType[n.Name] = "<" + ty + ">"
+				}
+			}
+		}
+		fields(fd.Recv)
+		fields(fd.Type.Params)
+		ast.Inspect(fd.Body, func(x ast.Node) bool {
+			switch v := x.(type) {
+			case *ast.FuncLit:
+				fields(v.Type.Params)
+			case *ast.AssignStmt:
+				for i, l := range v.Lhs {
+					if id, ok := l.(*ast.Ident); ok {
+						count[id.Name]++
+						if len(v.Lhs) == len(v.Rhs) {
+							subst[id.Name] = v.Rhs[i]
+						} else if len(v.Rhs) == 1 {
+							substResult[id.Name] = i // result i of the call
+							subst[id.Name] = v.Rhs[0]
+						} else {
+							count[id.Name] += 2
+						}
+					}
+				}
+			case *ast.ValueSpec:
+				for _, n := range v.Names {
+					count[n.Name]++
+				}
+			case *ast.RangeStmt:
+				for _, l := range []ast.Expr{v.Key, v.Value} {
+					if id, ok := l.(*ast.Ident); ok {
+						count[id.Name] += 2
+					}
+				}
+			}
+			return true
+		})
+		for n, c := range count {
+			if c != 1 {
+				delete(subst, n)
+			}
+		}
+		for n := range substType {
+			delete(subst, n)
+		}
+	}
+	var sites []rnSite
+	calls := map[string][]rnCallSite{} // callee name -> where it is called
+	var names []string
+	for n := range pkg.funcs {
+		names = append(names, n)
+	}
+	sort.Strings(names)
+	var fds []*ast.FuncDecl
+	for _, n := range names {
+		fds = append(fds, pkg.funcs[n]...)
+	}
+	sort.Slice(fds, func(i, j int) bool { return fds[i].Pos() < fds[j].Pos() })
+	for _, fd := range fds {
+		prepare(fd)
 		var stack []ast.Node
-		context := func() (fn, cb string, conds []string) {
+		context := func() (cb string, conds []string) {
 			for i, x := range stack {
 				switch v := x.(type) {
-				case *ast.FuncDecl:
-					fn = v.Name.Name
 				case *ast.KeyValueExpr:
 					if k, ok := strLit(v.Key); ok {
 						if _, isFn := v.Value.(*ast.FuncLit); isFn {
 							cb = k
+							conds = nil // what surrounds the table of callbacks is not a condition of the callback
 						}
 					}
 				case *ast.IfStmt:
 					if i+1 < len(stack) {
 						switch stack[i+1] {
 						case ast.Node(v.Body):
-							conds = append(conds, exprText(fset, v.Cond))
+							conds = append(conds, text(v.Cond))
 						case v.Else:
-							conds = append(conds, "!("+exprText(fset, v.Cond)+")")
+							conds = append(conds, negText(v.Cond))
 						}
+					}
+				case *ast.BlockStmt:
+					// statements after "if c { ...; return }" run under the negation of c
+					if i+1 < len(stack) {
+						for _, st := range v.List {
+							if ast.Node(st) == stack[i+1] {
+								break
+							}
+							if is, ok := st.(*ast.IfStmt); ok && is.Else == nil && endsInReturn(is.Body.List) {
+								conds = append(conds, negText(is.Cond))
+							}
+						}
+					}
+				case *ast.CaseClause:
+					// switch tag { case a, b: } reads as tag == a || tag == b; a tagless switch as the case itself
+					var tag ast.Expr
+					for k := i - 1; k >= 0; k-- {
+						if sw, ok := stack[k].(*ast.SwitchStmt); ok {
+							tag = sw.Tag
+							break
+						}
+						if _, ok := stack[k].(*ast.BlockStmt); !ok {
+							break
+						}
+					}
+					var alts []string
+					for _, e := range v.List {
+						if tag != nil {
+							alts = append(alts, text(tag)+" == "+text(e))
+						} else {
+							alts = append(alts, text(e))
+						}
+					}
+					if len(alts) > 0 {
+						conds = append(conds, strings.Join(alts, " || "))
 					}
 				}
 			}
@@ -82,7 +243,11 @@ func runNumberSites() string {
 			s, ok := e.(*ast.SelectorExpr)
 			return ok && s.Sel.Name == "currentRunNumber"
 		}
-		ast.Inspect(f, func(x ast.Node) bool {
+		add := func(kind string) {
+			cb, conds := context()
+			sites = append(sites, rnSite{fd: fd, cb: cb, kind: kind, conds: conds})
+		}
+		ast.Inspect(fd, func(x ast.Node) bool {
 			if x == nil {
 				stack = stack[:len(stack)-1]
 				return true
@@ -100,47 +265,111 @@ func runNumberSites() string {
 							kind = "zero"
 						}
 					}
-					fn, cb, conds := context()
-					writes = append(writes, fmt.Sprintf("  (%s, %s, %s, %s, %s)", coqString(n), coqString(fn), coqString(cb),
-						coqString(kind), coqStringList(conds)))
+					add(kind)
 				}
 			case *ast.IncDecStmt:
 				if isField(v.X) {
-					fn, cb, conds := context()
-					writes = append(writes, fmt.Sprintf("  (%s, %s, %s, %s, %s)", coqString(n), coqString(fn), coqString(cb),
-						coqString("value"), coqStringList(conds)))
+					add("value")
 				}
 			case *ast.UnaryExpr:
 				if v.Op == token.AND && isField(v.X) { // address taken: could be written anywhere
-					fn, cb, conds := context()
-					writes = append(writes, fmt.Sprintf("  (%s, %s, %s, %s, %s)", coqString(n), coqString(fn), coqString(cb),
-						coqString("address"), coqStringList(conds)))
+					add("address")
 				}
 			case *ast.CallExpr:
 				if s, ok := v.Fun.(*ast.SelectorExpr); ok && s.Sel.Name == "NewRunNumber" {
-					fn, cb, conds := context()
-					draws = append(draws, fmt.Sprintf("  (%s, %s, %s, %s)", coqString(n), coqString(fn), coqString(cb),
-						coqStringList(conds)))
+					add("draw")
+				}
+				// calls of functions / methods of this package, for reading helpers at their callers
+				name := ""
+				switch f := v.Fun.(type) {
+				case *ast.Ident:
+					name = f.Name
+				case *ast.SelectorExpr:
+					name = f.Sel.Name
+				}
+				if len(pkg.funcs[name]) == 1 && pkg.funcs[name][0] != fd {
+					cb, conds := context()
+					calls[name] = append(calls[name], rnCallSite{caller: fd, cb: cb, conds: conds})
 				}
 			}
 			return true
 		})
 	}
+	fname := func(fd *ast.FuncDecl) string {
+		if r := recvTypeName(fd); r != "" && len(pkg.funcs[fd.Name.Name]) > 1 {
+			return r + "." + fd.Name.Name
+		}
+		return fd.Name.Name
+	}
+	// a site in an unexported helper (a name declared once in the package, called from the package)
+	// is read at each of its callers, up to four levels
+	type placed struct {
+		fn, cb, kind string
+		conds        []string
+	}
+	var place func(fd *ast.FuncDecl, cb, kind string, conds []string, depth int) []placed
+	place = func(fd *ast.FuncDecl, cb, kind string, conds []string, depth int) []placed {
+		n := fd.Name.Name
+		cs := calls[n]
+		if cb != "" || depth >= 4 || ast.IsExported(n) || len(pkg.funcs[n]) != 1 || len(cs) == 0 {
+			return []placed{{fname(fd), cb, kind, conds}}
+		}
+		var out []placed
+		for _, c := range cs {
+			ccb := cb
+			if ccb == "" {
+				ccb = c.cb
+			}
+			out = append(out, place(c.caller, ccb, kind, append(append([]string{}, c.conds...), conds...), depth+1)...)
+		}
+		return out
+	}
+	var writes, draws []string
+	for _, s := range sites {
+		for _, p := range place(s.fd, s.cb, s.kind, s.conds, 0) {
+			if p.kind == "draw" {
+				draws = append(draws, fmt.Sprintf("  (%s, %s, %s)", coqString(p.fn), coqString(p.cb), coqStringList(p.conds)))
+			} else {
+				writes = append(writes, fmt.Sprintf("  (%s, %s, %s, %s)", coqString(p.fn), coqString(p.cb), coqString(p.kind), coqStringList(p.conds)))
+			}
+		}
+	}
+	sort.Strings(writes)
+	sort.Strings(draws)
 	if len(writes) == 0 || len(draws) == 0 {
 		die("runnumbersites: no write of currentRunNumber or no call of NewRunNumber found in core/environment")
 	}
-	return fmt.Sprintf(`(* generated by harness/cmd/translate runnumbersites from core/environment/*.go; do not edit *)
+	return fmt.Sprintf(`(* generated by harness/cmd/translate runnumbersites from package core/environment; do not edit *)
 From Coq Require Import String List.
 Import ListNotations.
 Open Scope string_scope.
-(* every write of Environment.currentRunNumber: (file, function, FSM callback, "zero" | "value" |
-   "address", conditions of the enclosing if statements, outermost first) *)
-Definition gen_rn_writes : list (string * string * string * string * list string) := [
+(* every write of Environment.currentRunNumber: (function, FSM callback, "zero" | "value" |
+   "address", conditions of the enclosing if / switch statements, outermost first); a site in an
+   unexported helper of the package is listed where the helper is called *)
+Definition gen_rn_writes : list (string * string * string * list string) := [
 %s
 ].
-(* every call of NewRunNumber: (file, function, FSM callback, enclosing conditions) *)
-Definition gen_rn_draws : list (string * string * string * list string) := [
+(* every call of NewRunNumber: (function, FSM callback, enclosing conditions) *)
+Definition gen_rn_draws : list (string * string * list string) := [
 %s
 ].
 `, strings.Join(writes, ";\n"), strings.Join(draws, ";\n"))
+}
+
+// replaceWord replaces whole-word occurrences of an identifier
+func replaceWord(s, word, by string) string {
+	isId := func(c byte) bool {
+		return c == '_' || c >= '0' && c <= '9' || c >= 'a' && c <= 'z' || c >= 'A' && c <= 'Z'
+	}
+	var b strings.Builder
+	for i := 0; i < len(s); {
+		if strings.HasPrefix(s[i:], word) && (i == 0 || !isId(s[i-1]) && s[i-1] != '.') && (i+len(word) == len(s) || !isId(s[i+len(word)])) {
+			b.WriteString(by)
+			i += len(word)
+			continue
+		}
+		b.WriteByte(s[i])
+		i++
+	}
+	return b.String()
 }
